@@ -26,6 +26,21 @@ def main():
         print("no check for " + prop)
         traceback.print_exc()
         sys.exit(2)
+    # watchdog: a check never hangs - if the machinery (a worker pool, a model process, a thread of the code under test)
+    # gets stuck, the run ends with a VIOLATION (machinery failure, no-failing-input-found) instead of blocking its caller
+    import signal
+
+    class CheckTimeout(Exception):
+        pass
+
+    def _on_alarm(signum, frame):
+        raise CheckTimeout("check did not finish within its time limit")
+    try:
+        limit = int(os.environ.get("VERIF_TIMEOUT", "0")) or (2400 if a.tier == "quick" else 6 * 3600)
+        signal.signal(signal.SIGALRM, _on_alarm)
+        signal.alarm(limit)
+    except (ValueError, OSError):
+        pass
     try:
         rc = mod.run(ctx)
     except Exception:
@@ -36,7 +51,12 @@ def main():
                       dict(kind="harness-exception", traceback=tb), no_input=True,
                       theorem="harness (correspondence could not be run)")
         rc = ctx.finish(["(run aborted)"])
-    sys.exit(rc)
+    try:
+        signal.alarm(0)
+    except Exception:
+        pass
+    sys.stdout.flush()
+    os._exit(rc)      # do not wait for stuck worker processes / threads of the code under test
 
 
 if __name__ == "__main__":
